@@ -134,7 +134,11 @@ class Initiator(DataExchangeProtocol):
                 pass
             else:
                 if self.target:
-                    atr_res = ATR_RES.decode(self.target.atr_res)
+                    try:
+                        atr_res = ATR_RES.decode(self.target.atr_res)
+                    except nfc.clf.ProtocolError as error:
+                        log.debug(error)
+                        self.target = None
                 else:
                     self._acm = None
 
@@ -225,6 +229,9 @@ class Initiator(DataExchangeProtocol):
             res = self.send_dep_req_recv_dep_res(req, self.rwt, timeout)
             if res.pfb.fmt == DEP_RES.TimeoutExtension:
                 for i in range(3):
+                    if len(res.data) == 0:
+                        error = "NFC-DEP RTOX PDU without RTOX value"
+                        raise nfc.clf.ProtocolError(error)
                     req = RTOX(res.data[0], self.did, self.nad)
                     rwt = res.data[0] * self.rwt
                     log.warning("target requested %.3f sec more time", rwt)
@@ -254,6 +261,9 @@ class Initiator(DataExchangeProtocol):
             res = self.send_dep_req_recv_dep_res(req, self.rwt, timeout)
             if res.pfb.fmt == DEP_RES.TimeoutExtension:
                 for i in range(3):
+                    if len(res.data) == 0:
+                        error = "NFC-DEP RTOX PDU without RTOX value"
+                        raise nfc.clf.ProtocolError(error)
                     req = RTOX(res.data[0], self.did, self.nad)
                     rwt = res.data[0] * self.rwt
                     log.warning("target requested %.3f sec more time", rwt)
@@ -386,6 +396,9 @@ class Initiator(DataExchangeProtocol):
         return bytearray(frame)
 
     def decode_frame(self, frame):
+        if len(frame) < (2 if self.target.brty == '106A' else 1):
+            error = "NFC-DEP frame without start byte or length byte"
+            raise nfc.clf.TransmissionError(error)
         if self.target.brty == '106A' and frame.pop(0) != 0xF0:
             error = "first NFC-DEP frame byte must be F0h for 106A"
             raise nfc.clf.ProtocolError(error)
@@ -450,7 +463,14 @@ class Target(DataExchangeProtocol):
         if target and target.atr_req and target.dep_req:
             log.debug("activated as " + str(target))
 
-            atr_req = ATR_REQ.decode(target.atr_req)
+            try:
+                atr_req = ATR_REQ.decode(target.atr_req)
+            except nfc.clf.ProtocolError as error:
+                log.debug(error)
+                return None
+            if atr_req is None:
+                log.debug("activated with an invalid ATR_REQ")
+                return None
             self.lrt = lrt
             self.gbt = gbt
             self.gbi = atr_req.gb
@@ -576,6 +596,9 @@ class Target(DataExchangeProtocol):
         res = RTOX(rtox, self.did, self.nad)
         req = self.send_dep_res_recv_dep_req(res, deadline=time.time()+1)
         if type(req) == DEP_REQ and req.pfb.fmt == DEP_REQ.TimeoutExtension:
+            if len(req.data) == 0:
+                error = "NFC-DEP RTOX PDU without RTOX value"
+                raise nfc.clf.ProtocolError(error)
             return req.data[0] & 0x3F
 
     def send_dep_res_recv_dep_req(self, dep_res, deadline):
@@ -653,6 +676,9 @@ class Target(DataExchangeProtocol):
         return bytearray(frame)
 
     def decode_frame(self, frame):
+        if len(frame) < (2 if self.target.brty == '106A' else 1):
+            error = "NFC-DEP frame without start byte or length byte"
+            raise nfc.clf.TransmissionError(error)
         if self.target.brty == '106A' and frame.pop(0) != 0xF0:
             error = "first NFC-DEP frame byte must be F0h for 106A"
             raise nfc.clf.ProtocolError(error)
@@ -697,6 +723,9 @@ class ATR_REQ(ATR_REQ_RES):
     @staticmethod
     def decode(data):
         if data.startswith(ATR_REQ.PDU_CODE):
+            if len(data) < 16:
+                errstr = "invalid format of the " + ATR_REQ.PDU_NAME
+                raise nfc.clf.ProtocolError(errstr)
             nfcid3, (did, bs, br, pp) = data[2:12], data[12:16]
             gb = data[16:] if pp & 0x02 else bytearray()
             return ATR_REQ(nfcid3, did, bs, br, pp, gb)
@@ -724,6 +753,9 @@ class ATR_RES(ATR_REQ_RES):
     @staticmethod
     def decode(data):
         if data.startswith(ATR_RES.PDU_CODE):
+            if len(data) < 17:
+                errstr = "invalid format of the " + ATR_RES.PDU_NAME
+                raise nfc.clf.ProtocolError(errstr)
             nfcid3, (did, bs, br, to, pp) = data[2:12], data[12:17]
             gb = data[17:] if pp & 0x02 else bytearray()
             return ATR_RES(nfcid3, did, bs, br, to, pp, gb)
